@@ -23,7 +23,7 @@ META = {
                    "early (a definition keyword inside the body), the rest of the body is parsed as top-level items and its "
                    "final `}` arrives with no region open; engine P marks that state and B4 requires that whatever consumes "
                    "the next token is the dispatcher. This decides closing-brace ownership and the restart after a stray "
-                   "closer (necessary conditions), not the behaviour.",
+                   "closer (necessary conditions), not the behaviour. B7 = C14 U12 (engine U: a string token that ends early leaks its closing quote into the following definitions). B8 = C02 P2.",
     "not_decided": "that every damage is reported at all; error ranges other than 'not on the next definition's first token after a stray closer'; "
                    "isolation under damage that adds openers.",
     "trusted_base": ["rustc MIR", "engine P's leaf-primitive model (checked by C02/M)"],
